@@ -131,7 +131,10 @@ func (r *Run) Thorough() bool { return r.Tier == "thorough" }
 func (r *Run) N(quick, thorough int) int {
 	n := quick
 	if r.Thorough() {
-		n = thorough
+		// the thorough tier is bounded so that all 19 checks finish within the session: at most
+		// eight times the quick tier's case count (the per-check figures were written before the
+		// checks grew their second and third parts)
+		n = min(thorough, quick*8)
 	}
 	n = int(float64(n) * *flagScale)
 	if n < 1 {
